@@ -213,6 +213,12 @@ func c12units(tier string) []mc.Unit {
 		r.AddNontrivial(cnt)
 		r.Sample(fmt.Sprintf("every Fibonacci word up to %d letters over (A,B) and (B,A)", maxFib))
 	}})
+	var menu []hcall
+	for _, x := range []string{"TTAGCA", "ABABA", "", "AAAAAAGA", strings.Repeat("ACG", 30) + "AC", "B"} {
+		x := x
+		menu = append(menu, hcall{"RotateSequence(" + q(x) + ")", func() any { return seqhash.RotateSequence(x) }, showSprint})
+	}
+	us = append(us, historyUnit("api-histories", menu, 3))
 	us = append(us, mc.Unit{Name: "selfcheck", Weight: 20, Run: func(r *mc.Recorder) {
 		for n := 0; n <= 12; n++ {
 			f := func(b []byte) {
